@@ -55,8 +55,8 @@ def targets(case):
                 for v in spec["vars"]:
                     tg.append((v.split("/")[1], names.index(n)))
         else:
-            for s, t in spec["edges"]:
-                j = [j for j, (s2, t2, _) in enumerate(case["edges"]) if (s2, t2) == (s, t)][0]
+            for s, t, *idx in spec["edges"]:       # [s, t] = parallel edge 0, [s, t, idx] = parallel edge idx
+                j = [j for j, (s2, t2, _) in enumerate(case["edges"]) if (s2, t2) == (s, t)][idx[0] if idx else 0]
                 tg.append(("w", j))
         out[key] = tg
     return out
@@ -81,7 +81,8 @@ def impl(case):
         if kind == "nodes":
             pmap[key] = {"nodes": [pre(case) + n for n in spec["nodes"]], "vars": list(spec["vars"])}
         else:
-            pmap[key] = {"edges": [(f"{pre(case)}{names[s]}/op/x", f"{pre(case)}{names[t]}/op/r_in") for s, t in spec["edges"]], "vars": ["weight"]}
+            pmap[key] = {"edges": [(f"{pre(case)}{names[s]}/op/x", f"{pre(case)}{names[t]}/op/r_in", *idx) for s, t, *idx in spec["edges"]],
+                         "vars": ["weight"]}
     grid = {key: [float(Fr(v)) for v in vals] for key, vals in case["grid"]}
     if case.get("df_index") is not None:          # the grid as a DataFrame whose integer index is a permutation
         import pandas as pd
@@ -95,7 +96,11 @@ def impl(case):
     pyr.reset_pyrates()
     try:
         try:
-            res, tab = grid_search(build(case), grid, pmap, step_size=DT, simulation_time=T_END, outputs=dict(outputs),
+            base = build(case)
+            if case.get("as_yaml"):            # the circuit handed over as a YAML path (adapt_circuit loads it itself)
+                base.to_yaml("c17base.yaml")
+                base = "c17base/base"
+            res, tab = grid_search(base, grid, pmap, step_size=DT, simulation_time=T_END, outputs=dict(outputs),
                                    inputs=inputs(),
                                    permute_grid=bool(case["permute"]), vectorize=bool(case["vectorize"]), solver="euler",
                                    verbose=False, float_precision="float64")
@@ -134,6 +139,11 @@ def gen_case(rng):
     pairs = [(s, t) for s in range(nn) for t in range(nn) if s != t]
     rng.shuffle(pairs)
     edges = [[s, t, dy(rng, -1, 1)] for s, t in pairs[:rng.randint(1, min(3, len(pairs)))]]
+    if rng.random() < 0.35:       # parallel edges between the same pair of variables (their weights add)
+        for _ in range(rng.randint(1, 2)):
+            s0, t0, _ = rng.choice(edges)
+            edges.append([s0, t0, dy(rng, -1, 1)])
+        rng.shuffle(edges)
     # disjoint target sets for the keys
     hier = rng.choice([1, 1, 2]) if rng.random() < 0.3 else 0      # the base circuit is itself hierarchical (1 or 2 extra levels)
     pool = [("k", i) for i in range(nn)] + [("c", i) for i in range(nn)]
@@ -154,7 +164,13 @@ def gen_case(rng):
             more = [t for t in pool if t[0] == "w"][:rng.randint(0, 1)]
             for t in more:
                 pool.remove(t)
-            pmap.append([key, "edges", {"edges": [[edges[j][0], edges[j][1]] for _, j in [first] + more]}])
+            def par_idx(j):      # which of the parallel edges between this pair edge j is
+                return [j2 for j2, e in enumerate(edges) if e[:2] == edges[j][:2]].index(j)
+            js = [j for _, j in [first] + more]
+            if any(par_idx(j) > 0 for j in js) or rng.random() < 0.3:
+                pmap.append([key, "edges", {"edges": [[edges[j][0], edges[j][1], par_idx(j)] for j in js]}])
+            else:
+                pmap.append([key, "edges", {"edges": [[edges[j][0], edges[j][1]] for j in js]}])
         else:
             same = [t for t in pool if t[0] == kind][:rng.randint(0, 2)]
             other = []
@@ -190,6 +206,8 @@ def gen_case(rng):
         i, j = rng.sample(range(nn), 2)
         nodes[j][1:] = nodes[i][1:]
         case["share"] = True
+    if not hier and not case.get("share") and rng.random() < 0.15:
+        case["as_yaml"] = True
     lens = {len(v) for _, v in grid}
     if not permute and len(lens) == 1 and rng.random() < 0.4:
         perm = list(range(len(grid[0][1]))); rng.shuffle(perm)
@@ -250,8 +268,9 @@ Definition obs_eqb (a b : observed) : bool :=
   | Some (r1, i1, c1), Some (r2, i2, c2) => leqb (leqb qeqb) r1 r2 && leqb String.eqb i1 i2 && leqb col_eqb c1 c2
   | _, _ => false
   end.
+Definition g_idx (c : gcase) : bool := idx_guard (base c) (pm c).
 Definition implO (c : gcase) : observed :=
-  match grid_impl (base c) (pm c) (vals c) (perm c) dt (steps c) with
+  match grid_impl_gen @IDX@ (base c) (pm c) (vals c) (perm c) dt (steps c) with
   | None => None
   | Some (rows, tr) => expected c rows (fun j r i => nth i (nth r (nth j tr []) []) (mkq 0 1))
   end.
@@ -274,6 +293,10 @@ Definition g_fanout (c : gcase) : bool :=
   negb (negb (Nat.eqb (List.length (pre c)) 0) &&
         existsb (existsb (fun tg => match tg with TW _ => true | _ => false end)) (pm c)).
 """
+
+# VERIF_C17_FIXES=idx evaluates the mechanism model with the proposed repair of the ignored edge idx and drops its guard
+FIXES = [x for x in os.environ.get("VERIF_C17_FIXES", "").split(",") if x]
+HEADER = HEADER.replace("@IDX@", "true" if "idx" in FIXES else "fix_idx")
 
 def cstrs(l):
     return clist([cstr(x) for x in l])
@@ -327,17 +350,19 @@ def coq_case(case, out):
             f"sep_grid := {ccols(g)}; sep_runs := {ccols(s)} |}}")
 
 def model_compare(ctx, cases, outs, tag):
-    badI, badS, badSep, gfan = [], [], [], []
+    badI, badS, badSep, gfan, gidx = [], [], [], [], []
     shard = 25
     for s in range(0, len(cases), shard):
         terms = [coq_case(c, o) for c, o in zip(cases[s:s + shard], outs[s:s + shard])]
         body = ("Definition cases : list gcase := " + clist(terms) + ".\n"
                 "Eval vm_compute in (mismatches okI cases).\nEval vm_compute in (mismatches okS cases).\n"
-                "Eval vm_compute in (mismatches okSep cases).\nEval vm_compute in (mismatches g_fanout cases).\n")
+                "Eval vm_compute in (mismatches okSep cases).\nEval vm_compute in (mismatches g_fanout cases).\n"
+                "Eval vm_compute in (mismatches g_idx cases).\n")
         ls = parse_nat_lists(coq_eval(ctx, f"c17_{tag}_{s}", HEADER, body))
-        assert len(ls) == 4, ls
+        assert len(ls) == 5, ls
+        gidx += [s + i for i in ls[4]]
         badI += [s + i for i in ls[0]]; badS += [s + i for i in ls[1]]; badSep += [s + i for i in ls[2]]; gfan += [s + i for i in ls[3]]
-    return badI, badS, badSep, gfan
+    return badI, badS, badSep, gfan, ([] if "idx" in FIXES else gidx)
 
 def model_outputs(ctx, case, out):
     body = f"Definition c : gcase := {coq_case(case, out)}.\nEval vm_compute in (implO c, specO c, okSep c).\n"
@@ -362,10 +387,14 @@ def check(ctx):
     outs = run_impl(ctx, "c17", "impl", cases, per_case_timeout=300)
     crashed = [i for i, o in enumerate(outs) if not usable(o)]
     good = [i for i in range(len(cases)) if i not in crashed]
-    badI, badS, badSep, gfan = model_compare(ctx, [cases[i] for i in good], [outs[i] for i in good], "main")
+    badI, badS, badSep, gfan, gidx = model_compare(ctx, [cases[i] for i in good], [outs[i] for i in good], "main")
     badI = [good[i] for i in badI]; badSep = [good[i] for i in badSep]
     # the loud class is recognised by its exception; anything else outside the guard is judged like any other case
     gv = {good[i]: ["swept_edges_declared_at_top"] for i in gfan if outs[good[i]].get("raised") == "KeyError"}
+    # the ignored edge idx explains a disagreement with the Spec only when the mechanism model predicts the observed sweep
+    for i in gidx:
+        if good[i] not in badI:
+            gv.setdefault(good[i], []).append("swept_edge_is_parallel_edge_0")
     badS = sorted(set(good[i] for i in badS) | set(badSep))
     ctx.note(f"E1: {len(cases)} sweeps, {sum(nrows(c) for c in cases)} rows; sweep-vs-Impl mismatches {len(badI)}, sweep-vs-Spec mismatches "
              f"{len(badS)} (of which sweep-vs-separate-real-runs {len(badSep)}), unusable outcomes {len(crashed)}")
@@ -374,13 +403,20 @@ def check(ctx):
         return dict(implementation_output=out, model_output=model_outputs(ctx, c, out) if usable(out) else None)
     def witness_check(f):
         out = run_impl(ctx, "c17", "impl", [f["witness"]], nworkers=1, per_case_timeout=300)[0]
-        return isinstance(out, dict) and out.get("raised") == "KeyError"
+        if f["guard"] == "swept_edges_declared_at_top":
+            return isinstance(out, dict) and out.get("raised") == "KeyError"
+        if not usable(out):
+            return True
+        return bool(model_compare(ctx, [f["witness"]], [out], "wit_" + f["id"].replace("-", "_"))[1])
     conclude(ctx, cases=cases, impl_out=outs, bad_spec=badS, bad_impl=badI, crashed=crashed, problem=problem, show=show,
              guard_viol=gv, witness_check=witness_check,
              spec_name="Grid.grid_spec (every row of the returned table simulated on its own) and the separate real runs",
              impl_name="Grid.grid_impl (assembled network)")
     nt = {canon(c) for c in cases if nontrivial(c)}
-    hist = dict(hierarchical_base=sum(1 for c in cases if c.get("hier")), hierarchical_base_with_inputs=sum(1 for c in cases if c.get("hier") and c.get("inputs")),
+    hist = dict(parallel_edges=sum(1 for c in cases if len({(e[0], e[1]) for e in c["edges"]}) < len(c["edges"])),
+                edge_keys_with_idx=sum(1 for c in cases if any(k == "edges" and len(sp["edges"][0]) == 3 for _, k, sp in c["pmap"])),
+                circuit_as_yaml_path=sum(1 for c in cases if c.get("as_yaml")),
+                hierarchical_base=sum(1 for c in cases if c.get("hier")), hierarchical_base_with_inputs=sum(1 for c in cases if c.get("hier") and c.get("inputs")),
                 permuted=sum(1 for c in cases if c["permute"]), zipped=sum(1 for c in cases if not c["permute"]),
                 value_error=sum(1 for o in outs if isinstance(o, dict) and o.get("raised") == "ValueError"),
                 edge_keys=sum(1 for c in cases if any(k == "edges" for _, k, _ in c["pmap"])),
@@ -392,7 +428,7 @@ with_inputs=sum(1 for c in cases if c.get("inputs")),
                 wildcard_outputs=sum(1 for c in cases if c["outputs"][0][1].startswith("all")))
     write_evidence(ctx, evaluations=len(cases), distinct_nontrivial=len(nt),
                    rule="random linear circuits (2-3 nodes, 1-3 edges, dyadic k, c, x0, weights) x random sweeps: 1-3 keys with disjoint target "
-                        "sets (node parameters op/k, op/c on 1-3 nodes, both vars per key, edge weights on 1-2 edges), equal-length or permuted "
+                        "sets (node parameters op/k, op/c on 1-3 nodes, both vars per key, edge weights on 1-2 edges incl. parallel edges addressed as (source, target) or (source, target, idx)), equal-length or permuted "
                         "grids, base circuit flat or wrapped in 1-2 further hierarchy levels (a few of unequal length without permute -> ValueError), zipped grids also passed as a DataFrame whose integer index "
                         "is a permutation, half of the sweeps with non-constant extrinsic input series on 1-2 nodes (also on nodes with incoming edges), nodes with identical values held as one shared NodeTemplate object, outputs by node name or 'all', vectorize on/off; "
                         "non-trivial = >= 2 rows; distinct = distinct canonical JSON",
